@@ -17,6 +17,7 @@ pub struct Stats {
     pub invocations: u64,
     pub edits: u64,
     pub oracle_unavailable: u64,
+    pub oracle_refused_well_formed: u64,
     pub unmodelled: u64,
     pub shapes: BTreeMap<String, u64>,
     pub faults_fired: BTreeMap<String, u64>,
@@ -41,6 +42,7 @@ impl Stats {
         self.invocations += o.invocations;
         self.edits += o.edits;
         self.oracle_unavailable += o.oracle_unavailable;
+        self.oracle_refused_well_formed += o.oracle_refused_well_formed;
         self.unmodelled += o.unmodelled;
         for (k, v) in o.shapes {
             *self.shapes.entry(k).or_default() += v;
